@@ -256,7 +256,9 @@ def generate(seed, tier):
         for p_ in provs:
             if r.random() < 0.6:
                 p_["attrs"].update({"bulk.%s.%d" % (p_["name"], j): j for j in range(r.choice((40, 70, 130, 300)))})
-    env_attrs = r.choice((None, "team=env,zone=eu%20west", "service.name=fromattrs", "bad,team=x"))
+    env_attrs = r.choice((None, "team=env,zone=eu%20west", "service.name=fromattrs", "bad,team=x",
+                          # a stray byte in a KEY (the environment is decoded with surrogateescape)
+                          "te\udcffam=core,zone=eu"))
     if r.random() < 0.1:
         env_attrs = ",".join(["team=env"] + ["env.k%d=v%d" % (j, j) for j in range(r.choice((60, 140, 260)))])
     # values that are fine as attributes but awkward on the wire: not UTF-8 (an environment value in another encoding
@@ -492,6 +494,7 @@ def _wire(s, ch):
             viol.append(V("no-resource-observed", ""))
         for where, res in seen_resources:
             for key_, val in want.items():
+                key_ = _wire_form(key_)     # (a key that is not valid UTF-8 arrives escaped, like a value)
                 if key_ not in res:
                     viol.append(V("resource-key-missing:%s" % ("sdk-or-service" if key_.startswith(("telemetry", "service")) else "source"),
                                   "%s lacks %r (%s); it has %d keys: %r" % (where, key_, val, len(res), sorted(res)[:12])))
